@@ -72,6 +72,9 @@ func gen(r *sim.Rng, tier string) *sim.Case {
 				cnt = r.Range(20000, 45000) // a really dense bucket
 			}
 			step := []int{1, 1, 2, 3, 15}[r.N(5)]
+			if r.Pct(2) {
+				cnt, step = 1<<16, 1 // the whole bucket: all 65536 values of one key
+			}
 			if step*cnt > 1<<16 {
 				step = 1
 			}
